@@ -117,6 +117,19 @@ pub assume_specification[ std::time::Instant::elapsed ](t: &std::time::Instant) 
 
 pub open spec fn dur_max() -> nat { 18446744073709551615 * 1000000000 + 999999999 }
 
+/// ASSUMPTION: the std operators on Duration / Instant behave as the `*_spec` functions below say
+pub axiom fn axiom_time_ops_obey()
+    ensures
+        <std::time::Duration as vstd::std_specs::ops::AddSpec<std::time::Duration>>::obeys_add_spec(),
+        <std::time::Instant as vstd::std_specs::ops::SubSpec<std::time::Duration>>::obeys_sub_spec(),
+        <std::time::Duration as vstd::std_specs::cmp::PartialOrdSpec<std::time::Duration>>::obeys_partial_cmp_spec();
+
+pub open spec fn time_ops_obey() -> bool {
+    &&& <std::time::Duration as vstd::std_specs::ops::AddSpec<std::time::Duration>>::obeys_add_spec()
+    &&& <std::time::Instant as vstd::std_specs::ops::SubSpec<std::time::Duration>>::obeys_sub_spec()
+    &&& <std::time::Duration as vstd::std_specs::cmp::PartialOrdSpec<std::time::Duration>>::obeys_partial_cmp_spec()
+}
+
 /// ASSUMPTION: `Duration + Duration` panics only on overflow of the representable range and adds the lengths.
 pub broadcast axiom fn axiom_duration_add(a: std::time::Duration, b: std::time::Duration)
     ensures
@@ -147,6 +160,10 @@ pub broadcast axiom fn axiom_duration_ord(a: std::time::Duration, b: std::time::
 /// element types; the crate calls it only on `[u8]` and `[TransferOption]` (both `Copy`).
 pub assume_specification<T: Clone>[ <[T]>::to_vec ](s: &[T]) -> (r: Vec<T>)
     ensures r@ == s@;
+
+/// ASSUMPTION: printing does not panic (it can, on a closed stdout; not modelled)
+pub assume_specification[ std::io::_print ](_0: core::fmt::Arguments<'_>);
+pub assume_specification[ std::io::_eprint ](_0: core::fmt::Arguments<'_>);
 
 pub assume_specification[ std::thread::sleep ](_0: std::time::Duration);
 
